@@ -378,6 +378,9 @@ func (sb *Sandbox) hostPath(p []string) string {
 	return filepath.Join(parts...)
 }
 
+// MaxSnapshotDepth bounds how deep a snapshot descends (the deepest tree of any universe has 9 levels)
+const MaxSnapshotDepth = 16
+
 // Snapshot reads the served directory back as an abstract tree (names, kinds, bytes -> tokens).
 func (sb *Sandbox) Snapshot() []Entry {
 	out := []Entry{}
@@ -388,6 +391,12 @@ func (sb *Sandbox) Snapshot() []Entry {
 	var walk func(p string, segs []string, fi os.FileInfo)
 	walk = func(p string, segs []string, fi os.FileInfo) {
 		cp := append([]string{}, segs...)
+		if len(cp) > MaxSnapshotDepth {
+			// a runaway nest (a transfer copying into its own output): one marker stands for everything below, so that the
+			// observation stays small; no tree of any specification has it
+			out = append(out, Entry{P: append(cp[:MaxSnapshotDepth:MaxSnapshotDepth], "...deeper"), K: "f", D: "?runaway", N: 0})
+			return
+		}
 		if fi.IsDir() {
 			out = append(out, Entry{P: cp, K: "c"})
 			l, _ := os.ReadDir(p)
